@@ -4,7 +4,8 @@ import gen, streams
 from common import *
 
 RULE = ('pump strings prefix + unit^n + suffix (n chars 2000..8000) enumerated over prefixes x pump units (incl. the literals of every rule) x suffixes, '
-        'plus pumps derived from the parse tree of every rule (for every unbounded repeat: prefix = a sample of what precedes it in the rule, unit = samples of its whole body, '
+        'plus pumps derived from the parse tree of every rule (for every unbounded repeat, also inside look-aheads: prefix = a sample of what precedes it in the rule incl. what a positive look-behind demands, '
+        'unit = samples of its whole body with first/last/middle members of every character range and near/far members of negated classes, '
         'every suffix), tokenized by the real lexer in a killable subprocess under a per-input time budget; non-trivial = distinct pump string')
 ASSUMPTIONS = ['CPython re explores at most the search tree counted by `work` (time proportional to it)', 'wall-clock budget is generous (x100 over the slowest legitimate quadratic pump) to avoid noise alarms']
 PARTIAL = ['wall-clock relation (CPython re time proportional to the modelled search tree) is an assumption; every rule has a proved polynomial bound: 50 by the shape certificate, the two quoted-string rules by the parity argument (string_rules_poly)']
@@ -39,7 +40,10 @@ _CAT_REP = {'CATEGORY_SPACE': ' ', 'CATEGORY_NOT_SPACE': 'a', 'CATEGORY_DIGIT': 
 _CAT_PRED = {'CATEGORY_SPACE': lambda c: c.isspace(), 'CATEGORY_NOT_SPACE': lambda c: not c.isspace(), 'CATEGORY_DIGIT': lambda c: c.isdigit(),
              'CATEGORY_NOT_DIGIT': lambda c: not c.isdigit(), 'CATEGORY_WORD': lambda c: c.isalnum() or c == '_',
              'CATEGORY_NOT_WORD': lambda c: not (c.isalnum() or c == '_'), 'CATEGORY_LINEBREAK': lambda c: c == '\n', 'CATEGORY_NOT_LINEBREAK': lambda c: c != '\n'}
-_NEG_CANDIDATES = ['a', ' ', '1', 'x', '\n', '-', '_', '*', "'", '"']
+_NEG_CANDIDATES = ['a', ' ', '1', 'x', '\n', '-', '_', '*', "'", '"', '\u00e9', '\u00df', '\u0416', '\u3042', '\u95a2', '\uffe6', '\U0001F600', '\x00', '\x7f', '\u0080']
+# which member of a character range stands for it: 0 = first, 1 = last, 2 = middle (an overlap of two alternatives need not contain the first one);
+# for a negated class the candidates are tried from the ASCII end (0) or from the far end (1, 2)
+_REP = [0]
 
 
 def _sre():
@@ -77,11 +81,13 @@ def _sample(seq, v, groups):
         elif o == 'IN':
             items = [it for it in av if str(it[0]) != 'NEGATE']
             if len(items) != len(av):
-                out.append(next((c for c in _NEG_CANDIDATES if not _in_class(items, c)), '\x01'))
+                cands = _NEG_CANDIDATES if _REP[0] == 0 else _NEG_CANDIDATES[::-1][_REP[0] - 1:] + _NEG_CANDIDATES
+                out.append(next((c for c in cands if not _in_class(items, c)), '\x01'))
             else:
                 iop, iav = items[v % len(items)]
                 io = str(iop)
-                out.append(chr(iav) if io == 'LITERAL' else chr(iav[0]) if io == 'RANGE' else _CAT_REP.get(str(iav), 'a'))
+                rng_rep = (lambda lo, hi: chr(lo) if _REP[0] == 0 else chr(hi) if _REP[0] == 1 else chr((lo + hi) // 2))
+                out.append(chr(iav) if io == 'LITERAL' else rng_rep(*iav) if io == 'RANGE' else _CAT_REP.get(str(iav), 'a'))
         elif o == 'CATEGORY':
             out.append(_CAT_REP.get(str(av), 'a'))
         elif o == 'BRANCH':
@@ -102,7 +108,10 @@ def _sample(seq, v, groups):
             out.append(''.join(_sample(body, v // 2 + j, groups) for j in range(k)))
         elif o == 'GROUPREF':
             out.append(groups.get(av, ''))
-        # AT, ASSERT, ASSERT_NOT, GROUPREF_EXISTS: contribute no characters
+        elif o == 'ASSERT' and av[0] < 0:
+            # a positive look-behind: what it demands must stand in front, or the rule is never tried at the pump
+            out.append(_sample(av[1], v, groups))
+        # AT, look-aheads, ASSERT_NOT, GROUPREF_EXISTS: contribute no characters
     return ''.join(out)
 
 
@@ -116,8 +125,18 @@ def _walk(seq, pres, emit):
             if hi == sp.MAXREPEAT:
                 units = [u for u in dict.fromkeys(_sample(body, v, {}) for v in range(6)) if u][:4]
                 units += [a + b for a in units[:3] for b in units[:3] if a != b]
+                # the same body with other representatives of its character classes (last / middle of a range, far candidates of a negated class)
+                for rep in (1, 2):
+                    _REP[0] = rep
+                    try:
+                        units += [u for u in dict.fromkeys(_sample(body, v, {}) for v in range(6)) if u][:4]
+                    finally:
+                        _REP[0] = 0
                 emit(before, list(dict.fromkeys(units)))
             _walk(body, before, emit)
+        elif o in ('ASSERT', 'ASSERT_NOT') and av[0] > 0:
+            # a look-ahead is matched like any other part of the rule: its repeats backtrack too
+            _walk(av[1], before, emit)
         elif o == 'SUBPATTERN':
             _walk(av[3], before, emit)
         elif o == 'ATOMIC_GROUP':
